@@ -37,4 +37,6 @@ def install(spec=None):
     from . import contracts_impl
 
     contracts_impl.install_all(_count, _violate)
+    if spec and spec.get("inject_delays"):
+        contracts_impl.install_delays(spec["inject_delays"])
     return _STATE
